@@ -417,6 +417,9 @@ func ifs(b bool, x, y string) string {
 
 func c15() []*Ob {
 	return []*Ob{
+		{Prop: "C15", ID: "C15.9", Engine: "PAIR(two sites)", Floor: 1,
+			Desc:  "after a crash between publishing .index and releasing the active fraction the sealed fraction serves the sorted docs: NewSealed does not open the docs file eagerly, or the loader removes the leftover .meta/.docs before it loads the sealed fraction (Sealed.openDocs prefers an existing .docs)",
+			Check: func(c *Ctx) { sealedOpensAfterCleanup(c) }},
 		{Prop: "C15", ID: "C15.8", Engine: "ORDER(test-and-set)", Floor: 1,
 			Desc: "a deleted active fraction really loses its files: Active.Suicide decides between \"already released: only the leftovers\" and \"not released: remove .meta and .docs\" on the value the released flag had BEFORE it sets the flag — the read of f.released that feeds the branch precedes the store f.released = true; read afterwards it is always true, nothing is removed under the default configuration, and after a restart the loader replays the files of a fraction retention had dropped",
 			Check: func(c *Ctx) {
